@@ -166,7 +166,7 @@ def c01(res, tier, seed):
     records, owners = [], []
     rejected_compiles = 0
     for ci in range(0, len(groups), 500):
-        run, per = func.run_rule_cases("asan", groups[ci:ci + 500], wd, "c01_%d" % ci)
+        run, per = func.run_rule_cases("asan", groups[ci:ci + 500], wd, "c01_%d" % ci, extra_lines_before=["opt atomhook 1"])
         if not run.complete:
             rp = yv.save_replay("C01", "crash_%d" % ci, {"crash": yv.crash_summary(run), "script": run.script_path})
             res.violation("driver did not complete: " + yv.crash_summary(run), rp)
@@ -181,6 +181,14 @@ def c01(res, tier, seed):
                     rp = yv.save_replay("C01", "compile_%d" % (ci + gi), {"src": groups[ci + gi]["src"], "diag": msg})
                     res.violation("legal text string rejected by the compiler: %s" % msg, rp)
                 continue
+            # the atoms handed to the automaton for this string (hook H3) are necessary for each of its occurrences (Atoms.tla)
+            ats = g.get("atoms", [])
+            if ats and len({a["s"] for a in ats}) == 1 and len(ats) <= 1200:
+                samples = []
+                for v in variants(r, pat, m) + variants(r, pat, m):
+                    if v not in samples and 0 < len(v) <= 120: samples.append(v)
+                records.append({"kind": "atoms", "sort": "text", "pat": pat, "mods": tla_mods(m), "atoms": [{"b": a["b"], "bt": a["bt"]} for a in ats], "samples": [list(v) for v in samples[:16]]})
+                owners.append((ci + gi, -1, ats[:8]))
             for bi, b in enumerate(groups[ci + gi]["bufs"]):
                 sc = g["scans"][bi]["t"]["strings"]["$s"]
                 records.append({"kind": "text", "pat": pat, "mods": tla_mods(m), "buf": list(b),
@@ -200,12 +208,17 @@ def c01(res, tier, seed):
     res.cov["parts"]["compile_rejected_short_base64"] = rejected_compiles
     for b in bad[:200]:
         gi, bi, sc = owners[b]
+        if bi == -1:
+            rp = yv.save_replay("C01", "atoms_%d" % gi, {"src": groups[gi]["src"], "record": records[b]})
+            res.violation("the atoms of `%s` are not necessary for its occurrences (an occurrence contains none of them at its distance): first atoms %s" % (groups[gi]["src"][:200], sc), rp)
+            continue
         rp = yv.save_replay("C01", "case_%d_%d" % (gi, bi), {"src": groups[gi]["src"], "buf_hex": groups[gi]["bufs"][bi].hex(), "observed": sc,
                                                              "record": records[b]})
         res.violation("reported matches of `%s` on %s are not the documented occurrences: %s" % (groups[gi]["src"][:200], groups[gi]["bufs"][bi].hex()[:120], sc), rp)
     if len(bad) > 200:
         res.cov["parts"]["further_rejected_cases"] = len(bad) - 200
-    for i in range(min(4, len(records))):
+    res.cov["parts"]["atom_sets_judged"] = sum(1 for x in records if x["kind"] == "atoms")
+    for i in [k for k in range(len(records)) if records[k]["kind"] == "text"][:4]:
         res.sample({"src": groups[owners[i][0]]["src"], "buf_hex": groups[owners[i][0]]["bufs"][owners[i][1]].hex(), "obs": owners[i][2]})
     res.cov["rule"] = ("random text strings (length 1-40; small alphabet incl. 0x00/0x20/alnum/xor pairs, and all 256 values) x legal modifier sets "
                        "(ascii/wide/nocase/fullword/xor ranges/base64[wide] with std or permuted alphabet/private) x buffers built by planting exact, "
